@@ -16,6 +16,7 @@ func init() {
 	vRegister("VerifC09TagRange", VerifC09TagRange)
 	vRegister("VerifC09LocateBinaries", VerifC09LocateBinaries)
 	vRegister("VerifC06TagRange", VerifC06TagRange)
+	vRegister("VerifC09CommandLine", VerifC09CommandLine)
 }
 
 // vDigits returns a string of n symbolic decimal digits.
@@ -164,4 +165,26 @@ func VerifC06TagRange() {
 	}
 	vObserve(got)
 	vAssert(got == want, "C06.range.bounds: a numeric range filter does not keep exactly the values inside the range (bounds included)")
+}
+
+// VerifC09CommandLine: no interactive line (tokens from a command grammar plus
+// noise, as strings.Fields produces them) crashes the command parser.
+func VerifC09CommandLine() {
+	cmds := []string{"top", "top10", "tree", "list", "peek", "tags", "foo", "nodecount", "top0x"}
+	toks := []string{">", ">out", "10", "-3", "-cum", "--cum", "-", "main", "-runtime", "99999999999", ">", "|"}
+	n := vChoice("ntok", vBound("c09.maxtok", 3)+1)
+	input := []string{cmds[vChoice("cmd", len(cmds))]}
+	for i := 0; i < n; i++ {
+		input = append(input, toks[vChoice("tok"+strconv.Itoa(i), len(toks))])
+	}
+	cmd, cfg, err := parseCommandLine(input)
+	vReach("C09.cmdline:returned")
+	if err == nil {
+		vAssert(len(cmd) >= 1, "C09.cmdline.empty: a command line was accepted without a command")
+		vObserve(cmd[0], cfg.NodeCount, cfg.Output)
+	} else {
+		vObserve(false)
+	}
+	// option assignments persist, command arguments do not
+	vAssert(currentConfig().Output == "" && currentConfig().Focus == "", "C09.cmdline.leak: arguments of a command line changed the persistent options")
 }
